@@ -237,7 +237,7 @@ func jobC11(c *rt.Ctx) {
 			}
 			want := ref.X25519(s, pt)
 			zero := bytes.Equal(want, make([]byte, 32))
-			pc, sc := append([]byte{}, pt...), append([]byte{}, s...)
+			pc, sc := atAlign(pt), atAlign(s)
 			out, err := X25519(sc, pc)
 			var dst, in, base [32]byte
 			copy(in[:], s)
@@ -780,7 +780,7 @@ func c12Strings(c *rt.Ctx, prop string) {
 		_, dec := ref.Decode(b)
 		y := ref.YOf(b)
 		want := ref.EdToMontU(y)
-		in := append([]byte{}, b...)
+		in := atAlign(b)
 		got, ok := EdPublicKeyToX25519(ed25519.PublicKey(in))
 		c.Step(1)
 		raw := ref.LE(b)
@@ -835,4 +835,19 @@ func sparseOutputCase(c *rt.Ctx, tag []byte, target, order *big.Int, what string
 			map[string]interface{}{"scalar": ref.Hex(sc), "point": ref.Hex(P), "expected": ref.Hex(want), "observed": ref.Hex(out), "err": fmt.Sprint(err)})
 	}
 	return true
+}
+
+// atAlign returns a copy of b that starts at address = k (mod 8) inside a larger buffer and keeps
+// spare capacity behind it (callers hold keys and strings inside packed records, at any alignment).
+var alignCounter int
+
+func atAlign(b []byte) []byte {
+	alignCounter++
+	off := alignCounter & 7
+	buf := make([]byte, len(b)+24)
+	for i := range buf {
+		buf[i] = 0xA5
+	}
+	copy(buf[off:], b)
+	return buf[off : off+len(b)]
 }
